@@ -36,7 +36,16 @@ def evaluate(patch, demo, meta, sid, tier, checks=None):
         assert rc == 0, out
         env = dict(os.environ, PYTHONPATH=wt, PYTHONDONTWRITEBYTECODE="1")
         penv = dict(os.environ, PYTHONPATH="/repo", PYTHONDONTWRITEBYTECODE="1")
-        rc, out = sh([PY, demo], cwd="/repo", env=penv, timeout=900)
+        # the demonstration is run from a copy in an empty directory (some demos put their own parent
+        # directory on sys.path), with the tree under test as cwd, PYTHONPATH and every *_ROOT variable
+        ddir = tempfile.mkdtemp(prefix="vf-demo-")
+        dcopy = os.path.join(ddir, "out", "demo.py")
+        os.makedirs(os.path.dirname(dcopy))
+        shutil.copy(demo, dcopy)
+        for e_, root_ in ((penv, "/repo"), (env, wt)):
+            for k in ("FM_ROOT", "FM_REPO", "FM_METAMODEL_ROOT"):
+                e_[k] = root_
+        rc, out = sh([PY, dcopy], cwd="/repo", env=penv, timeout=900)
         res["demo_pristine_passes"] = rc == 0
         rc, out = sh(["git", "-C", wt, "apply", os.path.abspath(patch)])
         res["applies"] = rc == 0
@@ -46,7 +55,8 @@ def evaluate(patch, demo, meta, sid, tier, checks=None):
         rc, out = sh([PY, "-m", "pytest", "-q", "-p", "no:cacheprovider"], cwd=wt, env=env, timeout=1800)
         res["pinned_tests_pass"] = rc == 0 and "144 passed" in out
         res["pinned_tail"] = out.strip().splitlines()[-1] if out.strip() else ""
-        rc, out = sh([PY, demo], cwd=wt, env=env, timeout=900)
+        rc, out = sh([PY, dcopy], cwd=wt, env=env, timeout=900)
+        shutil.rmtree(ddir, ignore_errors=True)
         res["demo_fails_with_change"] = rc != 0
         res["demo_output"] = out[-400:]
         det = {}
